@@ -174,16 +174,15 @@ Module Example.
 Local Open Scope Z_scope.
 Notation DZ := (Dual Zring).
 Definition dz (a b : Z) : DZ := mkD (K:=Zring) a b.
-(* two sites, two parallel bonds 0-1 with displacements +1 and -2 (a 1-D chain with a 2-site cell);
-   conductances 1+eps and 2+3eps: L(eps) = 9 c1 c2/(c1+c2) ... the exact corrector is rational, so we
-   take conductances 1 and 1 (+ eps-parts 1 and 3):  L = (c1 c2/(c1+c2)) * 9 * 2 directed copies *)
+(* two sites joined by two kinds of bonds with displacements +2 and -4 (a 1-D chain with a 2-site cell),
+   conductances c1 = 1 + eps, c2 = 1 + 3 eps.  Kirchhoff at site 1:  c1 (2 + g) + c2 (g - 4) = 0, so
+   g = (4 c2 - 2 c1)/(c1 + c2) = 1 + 3 eps, and B = 2 c1 (2 + g)^2 + 2 c2 (g - 4)^2 = 36 + 72 eps:
+   value 36, derivative 72 (with Z = 1, Z' = 0). *)
 Definition jumpsE : list (jump DZ) :=
   [mkJump (K:=DZ) 0 1 0 [dz 2 0]; mkJump (K:=DZ) 1 0 0 [dz (-2) 0];
    mkJump (K:=DZ) 0 1 1 [dz (-4) 0]; mkJump (K:=DZ) 1 0 1 [dz 4 0]].
 Definition wTE : list DZ := [dz 1 1; dz 1 3].
-(* corrector: g(0) = 0, g(1) = 1 - eps/ ... chosen so that Kirchhoff holds exactly over duals:
-   flux balance  c1 (2 + g) + c2 (-4 + g) = 0  with c = (1+eps, 1+3eps):  g = 1 + eps *)
-Definition gamE : list (list DZ) := [[dz 0 0; dz 1 1]].
+Definition gamE : list (list DZ) := [[dz 0 0; dz 1 3]].
 
 Example dual_check_ex :
   dual_check (K:=Zring) 2 1 wTE jumpsE gamE 1 0 [[36]] [[36]] [[72]] [[72]] = 0%nat.
